@@ -213,6 +213,21 @@ class Machine:
         self.trace = []
 
     # -- helpers ----------------------------------------------------------------------------------
+    def keep(self, lst, what):
+        """register a list the harness hands to the library as an argument: it is the caller's object and must keep its
+        value for the rest of the history (a library object that stored it by reference would change it later)"""
+        import copy
+        if not hasattr(self, "user_lists"):
+            self.user_lists = []
+        self.user_lists.append((lst, copy.deepcopy(lst), what))
+        return lst
+
+    def user_list_changed(self):
+        for lst, orig, what in getattr(self, "user_lists", []):
+            if lst != orig:
+                return "%s: the caller's list changed from %s to %s" % (what, orig, lst)
+        return None
+
     def g(self, seed):
         return core.rng(seed)
 
@@ -305,21 +320,32 @@ class Machine:
             N = self.shape_for(seed)
             A = core.payload(N, "f64", "gauss", g)
             eps = [1e-12, 1e-2, 0.3][p % 3]
-            res = T.TT(A.numpy() if name == "new_numpy" else A, eps=eps) if p % 2 else T.TT(A, list(N), eps=eps)
+            if p % 2:
+                res = T.TT(A.numpy() if name == "new_numpy" else A, eps=eps)
+            else:
+                # the shape list is the caller's: one list object is reused for every construction with these mode sizes
+                if not hasattr(self, "shape_lists"):
+                    self.shape_lists = {}
+                shp = self.shape_lists.get(tuple(N))
+                if shp is None:
+                    shp = self.shape_lists[tuple(N)] = self.keep(list(N), "shape list of TT(dense, shape)")
+                res = T.TT(A.numpy() if name == "new_numpy" else A, shp, eps=eps)
         elif name == "new_dense_ttm":
             N = self.shape_for(seed, lim=3)[:3]
             M = self.shape_for(seed + 1, d=len(N), lim=3)
-            res = T.TT(core.payload(M + N, "f64", "gauss", g), [(m, n) for m, n in zip(M, N)], eps=[1e-12, 0.2][p % 2])
+            res = T.TT(core.payload(M + N, "f64", "gauss", g), self.keep([(m, n) for m, n in zip(M, N)], "shape list of TT(dense, shape)"), eps=[1e-12, 0.2][p % 2])
         elif name in ("random", "randn"):
             N = self.shape_for(seed)
             d = len(N)
             R = [1] + [1 + (p + k) % 3 for k in range(d - 1)] + [1]
             shp = [(n, 1 + (n + p) % 3) for n in N] if p % 3 == 0 else list(N)
+            self.keep(shp, "shape list of random/randn")
+            self.keep(R, "rank list of random/randn")
             res = T.random(shp, R) if name == "random" else T.randn(shp, R)
         elif name in ("ones", "zeros"):
             N = self.shape_for(seed)
             shp = [(n, 1 + (n + p) % 3) for n in N] if p % 3 == 0 else list(N)
-            res = (T.ones if name == "ones" else T.zeros)(shp)
+            res = (T.ones if name == "ones" else T.zeros)(self.keep(shp, "shape list of ones/zeros"))
         elif name == "eye":
             res = T.eye(self.shape_for(seed, lim=3)[:3])
         elif name == "rank1TT":
@@ -482,7 +508,12 @@ class Machine:
         elif name in ("round", "round_rmax"):
             x = self.pick(a, lambda o: True)
             operands = [x]
-            res = x.round([1e-12, 1e-3, 0.3, 0.0][p % 4]) if name == "round" else x.round(1e-10, 1 + p % 3)
+            if name == "round":
+                res = x.round([1e-12, 1e-3, 0.3, 0.0][p % 4])
+            elif p % 2:
+                res = x.round(1e-10, self.keep([1] + [1 + (p // 2 + j) % 3 for j in range(len(x.N) - 1)] + [1], "rmax list of round"))
+            else:
+                res = x.round(1e-10, 1 + p % 3)
         elif name == "t":
             A = need_m(a)
             operands = [A]
@@ -512,7 +543,7 @@ class Machine:
             operands = [x]
             d = len(x.N)
             idx = sorted({(p + k) % d for k in range(1 + p % d)})
-            res = x.sum(idx if p % 2 else idx[0])
+            res = x.sum(self.keep(idx, "index list of sum") if p % 2 else idx[0])
         elif name in ("dot", "dot_axis"):
             x = need_t(a)
             operands = [x]
@@ -573,7 +604,7 @@ class Machine:
                 tot = int(np.prod(x.N))
                 f = [q for q in (2, 3, 4) if tot % q == 0]
                 tgt = [tot] if (p % 3 == 0 or not f) else ([f[p % len(f)], tot // f[p % len(f)]] if p % 3 == 1 else [1, tot // f[0], f[0]])
-            res = T.reshape(x, tgt, eps=[1e-14, 1e-4][p % 2])
+            res = T.reshape(x, self.keep(tgt, "shape list of reshape"), eps=[1e-14, 1e-4][p % 2])
         elif name == "permute":
             x = self.pick(a, lambda o: len(o.N) >= 2)
             if x is None:
@@ -582,7 +613,7 @@ class Machine:
             operands = [x]
             d = len(x.N)
             perm = list(torch.randperm(d, generator=g).numpy())
-            res = T.permute(x, [int(v) for v in perm], eps=1e-10)
+            res = T.permute(x, self.keep([int(v) for v in perm], "dims list of permute"), eps=1e-10)
         elif name in ("to_qtt", "qtt_roundtrip"):
             x = self.tensor(a, lambda o: all(n in (1, 2, 4) for n in o.N))
             if x is None:
@@ -590,7 +621,7 @@ class Machine:
                 self.add(x)
             operands = [x]
             q = x.to_qtt(eps=1e-10)
-            res = q if name == "to_qtt" else q.qtt_to_tens(list(x.N))
+            res = q if name == "to_qtt" else q.qtt_to_tens(self.keep(list(x.N), "shape list of qtt_to_tens"))
         elif name == "diag":
             x = self.pick(a, lambda o: (not o.is_ttm) or o.M == o.N)
             if x is None:
@@ -619,7 +650,7 @@ class Machine:
             operands = [x]
             k = p % len(x.N)
             Fm = core.payload([1 + p % 3, x.N[k]], "f64", "gauss", g).to(x.cores[0].dtype)
-            res = x.mprod(Fm, k) if p % 2 else x.mprod([Fm], [k])
+            res = x.mprod(Fm, k) if p % 2 else x.mprod([Fm], self.keep([k], "mode list of mprod"))
         elif name == "saveload":
             x = self.pick(a, lambda o: True)
             operands = [x]
@@ -789,6 +820,11 @@ class Machine:
                             role = "operand %d" % [id(q) for q in operands].index(id(o)) if id(o) in [id(q) for q in operands] else "bystander"
                             ck.require(False, "operand_changed_by:" + name, "step %d (%s): %s of the call: %s" % (step, name, role, msg))
                             return
+                msg = self.user_list_changed()
+                if msg is not None:
+                    ck.require(False, ("malformed_after:" if self.mode == "wellformed" else "operand_changed_by:") + name,
+                               "step %d (%s): %s" % (step, name, msg))
+                    return
             # final sweep: every live object is still well formed including full()
             if self.mode == "wellformed":
                 for o in reg.alive():
